@@ -86,11 +86,25 @@ def search_reopen_merges(job):
     warnings.simplefilter("ignore")
     data = os.path.join(os.path.dirname(os.path.dirname(os.path.dirname(numbers_parser.__file__))), "tests", "data")
     cases = [{"size": 4, "rects": [[0, 0, 1, 1]]}, {"size": 4, "rects": [[1, 1, 1, 3], [2, 0, 3, 0]]}, {"size": 4, "rects": [[0, 1, 2, 1]], "second": [[3, 2, 3, 3]]},
-             {"size": 4, "rects": [[1, 1, 1, 3]], "second": [[0, 0, 0, 1]]}, {"size": 4, "rects": [[2, 0, 3, 1]], "second": [[0, 2, 1, 3], [0, 0, 0, 1]]}]
+             {"size": 4, "rects": [[1, 1, 1, 3]], "second": [[0, 0, 0, 1]]}, {"size": 4, "rects": [[2, 0, 3, 1]], "second": [[0, 2, 1, 3], [0, 0, 0, 1]]},
+             {"size": 4, "rects": [[0, 0, 1, 1], [3, 1, 3, 2]], "then": ["del_tail_rows", 1]}, {"size": 4, "rects": [[0, 0, 1, 1], [1, 3, 2, 3]], "then": ["del_tail_cols", 1]}]
     for name, sheet in (("test-4.numbers", 0), ("test-9.numbers", 0), ("test-9.numbers", 1), ("issue-77.numbers", 0)):
         f = os.path.join(data, name)
         if os.path.exists(f):
             cases += [{"fixture": f, "sheet": sheet, "table": 0, "pick": p} for p in (0, 5)]
+    # a plain re-save of a document authored in Numbers keeps its merged rectangles (their full height and width)
+    from numbers_parser import Document
+    import tempfile
+    f9 = os.path.join(data, "test-9.numbers")
+    if os.path.exists(f9):
+        d0 = Document(f9)
+        before = [[list(t.merge_ranges) for t in s_.tables] for s_ in d0.sheets]
+        with tempfile.TemporaryDirectory() as td:
+            p9 = os.path.join(td, "resaved.numbers")
+            d0.save(p9)
+            after = [[list(t.merge_ranges) for t in s_.tables] for s_ in Document(p9).sheets]
+        if before != after:
+            return {"violated": True, "detail": f"test-9.numbers re-saved without an edit: merge ranges {before} became {after}", "job": {"custom": "replay_reopen_merges", "case": None}}
     for c in cases:
         r = M.run_case(c)
         if r and r.get("detail"):
@@ -103,5 +117,7 @@ def replay_reopen_merges(job):
     sys.path.insert(0, os.path.dirname(os.path.dirname(os.path.abspath(__file__))))
     from bounded import c12_merges as M
     warnings.simplefilter("ignore")
+    if job.get("case") is None:
+        return search_reopen_merges(job)
     r = M.run_case(job["case"])
     return {"violated": bool(r and r.get("detail")), "detail": (r or {}).get("detail", "")}
